@@ -39,6 +39,7 @@ def main():
     ap.add_argument('--seeded', action='store_true')
     ap.add_argument('--all-properties', action='store_true', help='for seeded patches: run every claimed check, not only the target property')
     ap.add_argument('-v', action='store_true')
+    ap.add_argument('--matrix', action='store_true', help='with --seeded --all-properties: write seeded/MATRIX.json and caught_by into each meta.json')
     a = ap.parse_args()
     items = []
     idx = os.path.join(VERIF, 'selftest', 'index.json')
@@ -61,6 +62,7 @@ def main():
     if a.property:
         items = [i for i in items if i['property'] == a.property]
     fails = 0
+    matrix = {}
     with ThreadPoolExecutor(max_workers=8) as ex:
         for item, status, out in ex.map(run_one, items):
             name = item.get('name') or item.get('patch')
@@ -74,6 +76,8 @@ def main():
             if hit and item.get('expect_rule'):
                 hit = ('rule %s ' % item['expect_rule']) in text and (item.get('expect_instance') is None or ('instance %s ' % item['expect_instance']) in text)
             others = [p for p, (c, t) in out.items() if p != tgt and c == 1]
+            rules_hit = sorted({ln.split()[1] for ln in text.splitlines() if ln.startswith('  rule ')})
+            matrix[name] = {'property': tgt, 'target_caught': bool(hit), 'rules': rules_hit, 'also': sorted(others), 'broken': sorted(p for p, (c, t) in out.items() if c == 2)}
             print('SELFTEST %-40s %s target=%s rc=%s%s' % (name, 'CAUGHT' if hit else 'MISSED', tgt, rc, (' also=' + ','.join(others)) if others else ''))
             if a.v or not hit:
                 for ln in text.splitlines():
@@ -82,6 +86,15 @@ def main():
             if not hit:
                 fails += 1
     print('selftest: %d items, %d not caught' % (len(items), fails))
+    if a.matrix and a.seeded:
+        json.dump(matrix, open(os.path.join(VERIF, 'seeded', 'MATRIX.json'), 'w'), indent=1, sort_keys=True)
+        for name, e in matrix.items():
+            mp = os.path.join(VERIF, 'seeded', name, 'meta.json')
+            m = json.load(open(mp))
+            m['breaks_property'] = e['property']
+            m['caught_by'] = ([e['property']] if e['target_caught'] else []) + e['also']
+            m['caught_by_rules'] = e['rules']
+            json.dump(m, open(mp, 'w'), indent=1, ensure_ascii=False)
     return 1 if fails else 0
 
 
